@@ -36,6 +36,7 @@ func (r *DecoratorResolver) ResolveIdent(file *ast.File, parent ast.Node, parent
 		r.RestorerResolver = guess.New()
 	}
 
+	r.verifStep(file, "start")
 	imports, err := r.imports(file)
 	if err != nil {
 		return "", err
@@ -67,6 +68,8 @@ func (r *DecoratorResolver) ResolveIdent(file *ast.File, parent ast.Node, parent
 func (r *DecoratorResolver) imports(file *ast.File) (map[string]string, error) {
 	r.filesM.Lock()
 	defer r.filesM.Unlock()
+	r.verifStep(file, "lock")
+	defer r.verifStep(file, "unlock")
 
 	if r.files == nil {
 		r.files = map[*ast.File]map[string]string{}
@@ -74,8 +77,10 @@ func (r *DecoratorResolver) imports(file *ast.File) (map[string]string, error) {
 
 	imports, ok := r.files[file]
 	if ok {
+		r.verifStep(file, "hit")
 		return imports, nil
 	}
+	r.verifStep(file, "miss")
 
 	imports = map[string]string{}
 	var done bool
@@ -136,6 +141,7 @@ func (r *DecoratorResolver) imports(file *ast.File) (map[string]string, error) {
 	}
 
 	r.files[file] = imports
+	r.verifStep(file, "store")
 
 	return imports, nil
 }
